@@ -522,6 +522,9 @@ class WebSocket:
             If None, it will wait forever until receive a close frame.
         """
         if not self.connected:
+            # the closing handshake is already under way (close frame sent or
+            # answered): nothing to send, but the transport must still be released
+            self.shutdown()
             return
         if status < 0 or status >= ABNF.LENGTH_16:
             raise ValueError("code is invalid range")
